@@ -50,16 +50,16 @@ def gen_cases(tier, seed):
             yield {'family': fam, 'idx': i, 'seed': seed}
 
 
-def write_csv(path, header, rows, lineterminator):
+def write_csv(path, header, rows, lineterminator, delimiter=','):
     buf = io.StringIO(newline='')
-    w = csv.writer(buf, lineterminator=lineterminator)
+    w = csv.writer(buf, lineterminator=lineterminator, delimiter=delimiter)
     w.writerow(header)
     w.writerows(rows)
     data = buf.getvalue().encode('utf-8')
     with open(path, 'wb') as f:
         f.write(data)
     # truth: independent re-read of the bytes
-    rr = list(csv.reader(io.StringIO(data.decode('utf-8'), newline='')))
+    rr = list(csv.reader(io.StringIO(data.decode('utf-8'), newline=''), delimiter=delimiter))
     return rr[0], rr[1:]
 
 
@@ -117,13 +117,16 @@ def run_case(case):
             row[0] = 'x'
         rows.append(row)
     lt = rng.choice(['\r\n', '\n'])
+    delim = rng.choice([',', ',', ';', '\t', '|'])
     path = 'in_%d.csv' % case['idx']
-    t_header, t_rows = write_csv(path, header, rows, lt)
+    t_header, t_rows = write_csv(path, header, rows, lt, delim)
     assert t_header == header and t_rows == rows
     strip = rng.random() < 0.5
     limit = rng.choice([None, None, 1, max(1, nrows - 1), max(1, nrows), nrows + 5])
     name = rng.choice([None, 'custom-name'])
     kw = {'strip': strip}
+    if delim != ',':
+        kw['delimiter'] = delim
     if limit is not None:
         kw['limit_rows'] = limit
     if name:
@@ -148,7 +151,9 @@ def run_case(case):
             kw['deduplicate_headers'] = True
         if rng.random() < 0.5:
             kw['deduplicate_headers_case_sensitive'] = False
-    cfg = {'family': fam, 'header': header, 'nrows': nrows, 'lineterminator': lt, 'header_class': hclass,
+    cov['options']['delimiter/%r' % delim] = 1
+    cfg = {'family': fam, 'header': header, 'nrows': nrows, 'lineterminator': lt, 'delimiter': delim,
+           'header_class': hclass,
            'options': {k: (v if not callable(v) else getattr(v, '__name__', 'fn')) for k, v in kw.items()}}
     cov['options']['%s/strip=%s/limit=%s/%s' % (fam, strip, 'none' if limit is None else
                                                  ('lt' if limit < nrows else 'ge'), hclass)] = 1
